@@ -150,7 +150,34 @@ def describe_key(fn, k, st):
     return None
 
 
+_ASSIGNED = {}
+
+
+def _assigned_vars(fn):
+    """variables the function assigns (a relation that mentions one of them may stem from the assignment, not from a test)"""
+    r = _ASSIGNED.get(id(fn))
+    if r is None:
+        r = set()
+        for el in fn.all_elements():
+            r |= engines.directly_assigned(fn, el.e) - set(sub[1] for sub in ir.walk(fn, el.e) if sub[0] == "d" and sub[2] is None)
+        r -= set()
+        _ASSIGNED[id(fn)] = r
+    return r
+
+
 def describe_atom(fn, a, st):
+    if a[0] == "rel":
+        # a relation between a by-value parameter and a length derived from the key / parameters:
+        # sig_len == bn_size_bin(pub->crt->n) is recorded as (sig_len-bn_size_bin(pub.crt.n)) == 0
+        k1, k2 = a[1], a[3]
+        assigned = _assigned_vars(fn)
+        isparam = lambda k: isinstance(k, tuple) and k[0] == "v" and fn.vars[k[1]]["k"] == "p" and "pc" not in fn.vars[k[1]] and k[1] not in assigned
+        if not (isparam(k1) or isparam(k2)):
+            return None
+        d1, d2 = describe_key(fn, k1, st), describe_key(fn, k2, st)
+        if d1 is None or d2 is None:
+            return None
+        return ("(%s-%s)" % (d1, d2), a[2], 0)
     if a[0] != "cmp":
         return None
     k = a[1]
@@ -356,9 +383,9 @@ def rule_ver_guard(ctx, prog, chk, table):
         if not rows:
             chk.note("VER-GUARD: no guard recorded for %s; no claim for that verifier" % base)
             continue
-        vv, evs = guards_at_accepts(ctx, prog, fn)
-        if vv is not None and not any(table[r]["guards"] for r in rows):
+        if not any(table[r]["guards"] for r in rows):
             continue
+        vv, evs = guards_at_accepts(ctx, prog, fn)
         if vv is None or not evs:
             raise AnalysisBroken("VER-GUARD: %s has no single verdict variable / accept event any more; its table row must be re-read" % fn.name)
         for row in rows:
@@ -622,8 +649,11 @@ def rule_status_use(ctx, prog, chk):
 def analyse(ctx, prog, chk, table=None):
     chk.used_program(prog)
     table = table if table is not None else load_table()
-    return {"guards": rule_ver_guard(ctx, prog, chk, table), "catch": rule_ver_catch(ctx, prog, chk),
-            "agg": rule_ver_agg(ctx, prog, chk), "status": rule_status_use(ctx, prog, chk), "fail": rule_ver_fail(ctx, prog, chk)}
+    from . import c05_rsa
+    out = {"guards": rule_ver_guard(ctx, prog, chk, table), "catch": rule_ver_catch(ctx, prog, chk),
+           "agg": rule_ver_agg(ctx, prog, chk), "status": rule_status_use(ctx, prog, chk), "fail": rule_ver_fail(ctx, prog, chk)}
+    out.update(c05_rsa.analyse(ctx, prog, chk))
+    return out
 
 
 def selfcheck(ctx, prog, chk):
@@ -634,7 +664,7 @@ def selfcheck(ctx, prog, chk):
     table = {}
     for fn in verifiers(prog):
         base = fn.name.split("__")[-1]
-        table[base] = row_dec if base == "cp_sd_ver" else row
+        table[base] = row_dec if base == "cp_sd_ver" else ({"guards": []} if base in ("cp_rsa_ver", "pad_pkcs2") else row)
     analyse(ctx, prog, chk, table)
 
 
@@ -643,3 +673,5 @@ def run(ctx, chk):
     chk.floor("VER-GUARD", "guard obligations", c["guards"], 20)
     chk.floor("VER-CATCH", "verifiers with a catch-body", c["catch"], 22)
     chk.floor("STATUS-USE", "status call sites of checking operations", c["status"], 10)
+    chk.floor("PSS-BITS", "loops over the leftmost bits of the PSS encoded message", c["bits"], 3)
+    chk.floor("PSS-EMLEN", "sign / verify pairs of the PSS encoded-message length", c["emlen"], 1)
